@@ -3,7 +3,8 @@
 (*   [op, inst, a, b, m, v, c, oa, ob, od, oc, r, p, cz]                                             *)
 (* is judged by Post / PredOK of AlgoOps (kinds "post", "pred-range", "canary"; "stable-doc" for an   *)
 (* algorithm whose own documentation promises stability).  Deviations are printed as DEV lines, not   *)
-(* fatal ("hang": the driver's watchdog fired, the call did not return).  Independently the         *)
+(* fatal ("hang" / "crash": the call did not return within the watchdog's CPU budget / raised a     *)
+(* fault signal; the driver abandons that group and goes on).  Independently the                     *)
 (* validator checks that the driver covered the input domain of AlgoDom exactly: events              *)
 (* of one (op, inst) group are contiguous, every input lies in the domain,    *)
 (* keys strictly increase (no input twice) and the group has DomSize(op) events - otherwise a         *)
@@ -27,7 +28,7 @@ Judge(ev) ==
     IF ev.op \in {"#end", "#replay"} THEN "ok"
     ELSE IF ev.op \notin AllOps THEN "harness-op"
     ELSE IF ~InDom(ev.op, ev) THEN "harness-domain"
-    ELSE IF "hang" \in DOMAIN ev THEN "hang"          \* the call did not return (driver watchdog)
+    ELSE IF "hang" \in DOMAIN ev THEN (IF ev.hang = 2 THEN "crash" ELSE "hang")   \* the call did not return / faulted
     ELSE IF ~Post(ev.op, ev, Out(ev)) THEN "post"
     ELSE IF ~PredOK(ev, ev.p) THEN "pred-range"
     ELSE IF ev.cz # 1 THEN "canary"
